@@ -641,6 +641,14 @@ RejectedChecks(ln, w, w2) ==
                 /\ PoolOf(ln.obs.pool) = w.pool) >>
     ELSE <<>>
 
+(* C18: the ghost after a generic call is the ghost after the ID-based call it stands for, so the observed world *)
+(* after a generic call has to be that world.                                                                  *)
+GenericStateChecks(ln, w2) ==
+    IF "gen" \in DOMAIN ln /\ ln.gen /\ ~ln.res.panic
+    THEN LET cs == ObsChecks(w2, ln.obs) IN
+         << Chk("C18", "generic-call-has-the-effect-of-its-equivalent", \A i \in DOMAIN cs : cs[i][3]) >>
+    ELSE <<>>
+
 AllChecks(ln, w, r) ==
     IF r.skip THEN r.c
     ELSE r.c \o ObsChecks(r.g, ln.obs) \o PoolChecks(ln, w, r.g)
@@ -649,6 +657,7 @@ AllChecks(ln, w, r) ==
              \o RawChecks(ln)
              \o BatchStateChecks(ln, r.g)
              \o RejectedChecks(ln, w, r.g)
+             \o GenericStateChecks(ln, r.g)
 
 ---------------------------------------------------------------------------
 (* Layer-2 conformance: the hidden state logged by the hook (World.VerifShape) evolves exactly as     *)
